@@ -65,6 +65,12 @@ fn main() {
             let th = arg_val(&args, "--jobs").and_then(|s| s.parse().ok()).unwrap_or(16);
             rcsearch::run(seed, secs, th)
         }
+        Some("dbwitness") => {
+            let seed = arg_val(&args, "--seed").and_then(|s| s.parse().ok()).unwrap_or(1);
+            let secs = arg_val(&args, "--seconds").and_then(|s| s.parse().ok()).unwrap_or(600);
+            let th = arg_val(&args, "--jobs").and_then(|s| s.parse().ok()).unwrap_or(16);
+            rcsearch::run_db(seed, secs, th)
+        }
         Some("longsym") => {
             selftest::long_symbol_report();
             0
